@@ -163,6 +163,16 @@ def light_checks(sig, viol):
                 or ne[1] or q[1].sources is not p.sources:
             viol('parameter-replace-loses-data', {'signature': str(sig), 'parameter': str(p), 'result': repr(q)[:200]}, {})
             break
+        # overriding one provenance field keeps the other
+        mark_s, mark_d = [len], {len: 7}
+        q1 = safe(lambda: p.replace(sources=mark_s))
+        q2 = safe(lambda: p.replace(source_depths=mark_d))
+        if q1[0] != 'ok' or q1[1].sources is not mark_s or q1[1].source_depths is not p.source_depths \
+                or q2[0] != 'ok' or q2[1].source_depths is not mark_d or q2[1].sources is not p.sources:
+            viol('parameter-replace-loses-data', {'signature': str(sig), 'parameter': str(p),
+                                                 'what': 'replace(sources=...) / replace(source_depths=...) must override exactly that field',
+                                                 'results': [repr(getattr(q1[1], 'source_depths', q1))[:80], repr(getattr(q2[1], 'sources', q2))[:80]]}, {})
+            break
         ua = _S.UpgradedAnnotation.preevaluated('X')
         q = safe(lambda: p.replace(annotation='X', upgraded_annotation=ua))
         if q[0] != 'ok' or q[1].upgraded_annotation is not ua or q[1].annotation != 'X':
@@ -203,7 +213,7 @@ def annotated_functions():
     for future in (False, True):
         for shape in shapes:
             names = [p[0] for p in shape]
-            for pattern in ('none', 'all', 'first+return') + (('unresolvable',) if future else ()):
+            for pattern in ('none', 'all', 'first+return') + (('unresolvable', 'unresolvable-attr', 'unresolvable-type') if future else ()):
                 ann = {}
                 ret = None
                 if pattern == 'all':
@@ -214,6 +224,12 @@ def annotated_functions():
                         continue
                     ann = {names[0]: 'T1'}
                     ret = 'T1'
+                elif pattern == 'unresolvable-attr':
+                    ann = dict((n, 'T1.no_such_attribute') for n in names)     # evaluation raises AttributeError
+                    ret = 'T2.neither'
+                elif pattern == 'unresolvable-type':
+                    ann = dict((n, 'T1[int]') for n in names)                  # evaluation raises TypeError
+                    ret = '1 + T2'
                 elif pattern == 'unresolvable':
                     # names that exist only for type checkers (if TYPE_CHECKING: import ...)
                     ann = dict((n, 'OnlyForTypeCheckers_') for n in names)
@@ -243,6 +259,20 @@ def e1_shard(tier, sh):
             light_checks(sig, viol)
             st.inc('evaluations', heavy_checks(sig, viol, st))
             st.inc('transitions')
+            # a second, distinct upgraded object carrying the same data: comparison returns a bool, whatever happens
+            twin = getter(f)
+            e = safe(lambda: (sig == twin, twin == sig, sig != twin))
+            if e[0] != 'ok' or not all(type(x) is bool for x in e[1]) or e[1][0] != e[1][1] or e[1][0] == e[1][2]:
+                viol('comparison-raises' if e[0] != 'ok' else 'equality-wrong',
+                     {'what': 'signature vs a second retrieval of the same function', 'result': repr(e)[:300]}, {'what': 'upgraded twin'})
+            if 'unresolvable' not in label and e[0] == 'ok' and e[1][0] is not True:
+                viol('equality-wrong', {'what': 'signature vs a second retrieval of the same function', 'result': repr(e)}, {'what': 'upgraded twin'})
+            for p1, p2 in zip(sig.parameters.values(), twin.parameters.values()):
+                e = safe(lambda: (p1 == p2, p1 != p2))
+                if e[0] != 'ok' or e[1][0] == e[1][1]:
+                    viol('comparison-raises' if e[0] != 'ok' else 'equality-wrong',
+                         {'what': 'parameter %s vs its twin from a second retrieval' % p1, 'result': repr(e)[:300]}, {'what': 'upgraded twin'})
+                    break
             # against what inspect itself returns for the function
             ins = inspect.signature(f)
             e = safe(lambda: (sig == ins, ins == sig, sig != ins, hash(sig) == hash(ins)))
